@@ -8,7 +8,7 @@ LEVEL = "exploration"
 PROBES = ("ops_judged",)
 RULE = ("histories of <= 40 operations (sample, sample(device='cpu'), next, len, re-make_static(r')) on a static sampler over "
         "a generated base sampler expression with r in {1,2,3,5,7,inf}, judged by R-static (a set of admissible ages: after "
-        "re-make_static both 'age continues' and 'age restarts' are accepted): the identical tensor for exactly r consecutive "
+        "re-make_static with a CHANGED interval both 'age continues' and 'age restarts' are accepted; with the same interval - 40 % of the re-staticisings - the age must continue): the identical tensor for exactly r consecutive "
         "uses counted from the draw, then a fresh draw ('fresh' = the base sampler was really called and, for random bases, the "
         "seam saw draws); non-static twins draw on every call. Adaptive samplers: histories of generated loss vectors (ties, "
         "all-equal, single maximum, lattice values for exact thresholds), R-adaptive: row count constant, threshold variant keeps "
